@@ -74,11 +74,19 @@ package chainexchange
 //@   at return 0
 //@     before[a_hit_returns_what_is_cached_under_the_requested_key] arg(1) ==> (arg(0) == res(Get, 1, 0).chain && res(Get, 1, 1)) || (arg(0) == res(Get, 2, 0).chain && res(Get, 2, 1))
 
+// The two per-instance tables are distinct maps: established here, never reassigned (no other store to the fields).
+//@ func NewPubSubChainExchange
+//@   property C18
+//@   modifies auto
+//@   maypanic
+//@   ensures[the_two_tables_are_distinct_maps] result1 == nil ==> result0.chainsWanted != result0.chainsDiscovered && result0.chainsWanted != nil && result0.chainsDiscovered != nil
+
 // Pruning removes exactly the instances below the given one, in both caches.
 //@ func (*PubSubChainExchange).RemoveChainsByInstance
 //@   property C18
 //@   modifies auto
 //@   maypanic
+//@   requires p.chainsWanted != p.chainsDiscovered
 //@   ensures[wanted_instances_below_are_gone_the_others_stay] forall(uint64(k), has(p.chainsWanted, k) == (old(has(p.chainsWanted, k)) && k >= instance))
 //@   ensures[discovered_instances_below_are_gone_the_others_stay] forall(uint64(k), has(p.chainsDiscovered, k) == (old(has(p.chainsDiscovered, k)) && k >= instance))
 //@   loop 1
@@ -89,3 +97,8 @@ package chainexchange
 //@     invariant p.chainsWanted == old(p.chainsWanted) && p.chainsDiscovered == old(p.chainsDiscovered)
 //@     invariant forall(uint64(k), has(p.chainsWanted, k) == (old(has(p.chainsWanted, k)) && k >= instance))
 //@     invariant forall(uint64(k), has(p.chainsDiscovered, k) == (old(has(p.chainsDiscovered, k)) && (k >= instance || !visited(k))))
+
+//@ structural storesonly PubSubChainExchange.chainsWanted in NewPubSubChainExchange : the precondition of RemoveChainsByInstance (distinct maps) is the constructor's postcondition and the fields are never assigned again
+//@   property C18
+//@ structural storesonly PubSubChainExchange.chainsDiscovered in NewPubSubChainExchange : same as chainsWanted
+//@   property C18
